@@ -130,6 +130,29 @@ def _axes_arg(args, kwargs, rank, names=("dim", "axis")):
     return (a,)
 
 
+def split_list(it, tv, size, dim, node):
+    """x.split(n) / torch.split(x, n) along axis 0: the views x[i : i + n] for i in range(0, len(x), n) - the same value a
+    comprehension over that range builds (one generic element and the range it runs over)."""
+    from .ops import val_of_dim, index_tensor
+    from .values import VSlice
+
+    if dim is not None and const_of(dim) != (True, 0):
+        return None
+    nt = num_term(size)
+    if nt is None or not isinstance(tv, VTens) or not tv.shape:
+        return None
+    lt = num_term(val_of_dim(tv.shape[0]))
+    if lt is None:
+        return None
+    i = VNum("int", T.sym("i@%s" % it.site(node)), nonneg=True)
+    hi = VNum("int", i.term + nt)
+    lv = it.new_list(None)
+    lv.obj.elem = index_tensor(it, tv, [VSlice(i, hi, None)], node)
+    lv.obj.comp_node = node
+    lv.obj.comp_iter = ("range", T.ZERO, lt, nt)
+    return lv
+
+
 def tensor_method(it, tv, name, args, kwargs, node):
     from .ops import tensor_binop, shape_val, val_of_dim, dim_of
 
@@ -285,6 +308,9 @@ def tensor_method(it, tv, name, args, kwargs, node):
     if name in ("view", "reshape"):
         dims_v = list(args[0].items) if (len(args) == 1 and isinstance(args[0], VTuple)) else list(args)
         dims = [dim_of(x) if not (isinstance(x, VConst) and x.value == -1) else -1 for x in dims_v]
+        if shape is not None and len(shape) == 1 and dims in ([1, -1], [-1, 1]) and (name == "view" or not tv.view or True):
+            # a vector reshaped to one row / one column: the same as unsqueeze (one normal form for both spellings)
+            return tensor_method(it, tv, "unsqueeze", [VConst(0 if dims == [1, -1] else 1)], {}, node)
         new_shape, desc = _view_shape(shape, dims)
         step = ("op", desc[0]) + tuple(desc[1:])
         return VTens(tv.obj, tv.view + (step,), new_shape)
@@ -441,6 +467,10 @@ def tensor_method(it, tv, name, args, kwargs, node):
         from .ops_ext import torch_roll
 
         return torch_roll(it, [tv] + list(args), kwargs, node)
+    if name == "split" and args:
+        r = split_list(it, tv, args[0], args[1] if len(args) > 1 else kwargs.get("dim"), node)
+        if r is not None:
+            return r
     if name in ("masked_fill", "where", "index_select", "gather", "flip", "cumsum", "cumprod", "flatten", "permute", "narrow", "chunk", "split", "type", "new_zeros", "new_tensor", "eq", "ne", "lt", "gt", "le", "ge", "nonzero", "argmax", "argmin", "sort", "unique", "norm", "diag", "diagonal", "tril", "triu", "fill_diagonal_"):
         if name == "flatten":
             return it.fresh(T.app("flatten", t) if t is not None else None, None, kind, node)
